@@ -15,20 +15,29 @@ pub mod trusted {
     pub broadcast proof fn axiom_uid_key_model() ensures #[trigger] obeys_key_model::<[u8; 16]>() {}
     #[verifier::external_body]
     pub broadcast proof fn axiom_circ_key_model() ensures #[trigger] obeys_key_model::<[u8; 32]>() {}
+    pub uninterp spec fn key_of_borrowed<K, Q: ?Sized>(q: &Q) -> K;
+    #[verifier::external_body]
+    pub broadcast proof fn axiom_key_of_borrowed_same<K>(q: &K) ensures #[trigger] key_of_borrowed::<K, K>(q) == *q {}
 }
-broadcast use {vstd::std_specs::hash::group_hash_axioms, trusted::axiom_uid_key_model, trusted::axiom_circ_key_model};
+broadcast use {vstd::std_specs::hash::group_hash_axioms, trusted::axiom_uid_key_model, trusted::axiom_circ_key_model, trusted::axiom_key_of_borrowed_same};
 pub type Uid = [u8; 16];
 
 pub assume_specification<T, A: std::alloc::Allocator>[ std::collections::VecDeque::<T, A>::is_empty ](v: &std::collections::VecDeque<T, A>) -> (r: bool)
     ensures r == (v@.len() == 0);
 
-// HashMap::get_mut: no contract (the map is havocked when the borrow ends); nothing below depends on the request table's content
+// HashMap::get_mut: ASSUMED std semantics (the returned reference is the only way the map changes); `key_of_borrowed` is the
+// owned key a borrowed key stands for (the identity when Q = K: trusted axiom)
 pub assume_specification<'a, K, V, S, A, Q>[ std::collections::HashMap::<K, V, S, A>::get_mut ](m: &'a mut std::collections::HashMap<K, V, S, A>, k: &Q) -> (r: std::option::Option<&'a mut V>)
     where
         A: std::alloc::Allocator,
         K: std::cmp::Eq + std::hash::Hash + std::borrow::Borrow<Q>,
         Q: std::marker::MetaSized + std::hash::Hash + std::cmp::Eq + ?Sized,
-        S: std::hash::BuildHasher;
+        S: std::hash::BuildHasher
+    ensures
+        match r {
+            Some(u) => old(m)@.contains_key(trusted::key_of_borrowed::<K, Q>(k)) && *u == old(m)@[trusted::key_of_borrowed::<K, Q>(k)] && final(m)@ == old(m)@.insert(trusted::key_of_borrowed::<K, Q>(k), *final(u)),
+            None => !old(m)@.contains_key(trusted::key_of_borrowed::<K, Q>(k)) && final(m)@ == old(m)@,
+        };
 
 // tokio channels: opaque, nothing assumed (send may fail, recv may return anything)
 pub mod mpsc {
@@ -54,7 +63,7 @@ pub mod mpsc {
 // E8 cut: `for room in rooms { if !lock_request.rooms.iter().any(|e| room.eq(e)) { lock_request.rooms.push_back(room); } }`
 // (VecDeque consumed by value: vec_deque::IntoIter has no Verus model).  ASSUMED: touches only `lock_request.rooms`.
 #[verifier::external_body]
-fn cut_merge_rooms(lock_request: &mut PeerLockRequest, rooms: VecDeque<Uid>) { unimplemented!() }
+fn cut_merge_rooms(lock_request: &mut PeerLockRequest, rooms: VecDeque<Uid>) ensures final(lock_request).reply == old(lock_request).reply { unimplemented!() }
 
 pub struct RoomLockService { x: u8 }
 
@@ -101,6 +110,11 @@ pub open spec fn at_most_one_grant(old_locked: Set<Uid>, old_av: usize, new_lock
 //@ insert body-start
     let mut receiver = receiver0;   // E9: captured variable of the async block
 //@ cut "for room in rooms" => "cut_merge_rooms(lock_request, rooms);"
+//@ insert before-stmt "if let Some(lock_request) = peer_lock_request.get_mut(&circuit) {"
+                        let ghost latest_reply = reply;
+//@ insert before-stmt "let avail_iter = avalaible;"
+                        // [grants_go_to_the_channel_of_the_latest_request] after a request, the pending entry of the circuit answers on the channel of THIS request: a new connection of a circuit is not left waiting on the channel of a connection that ended
+                        assert(peer_lock_request@.contains_key(circuit) && peer_lock_request@[circuit].reply == latest_reply);
 //@ rewrite E11 "\)\s*\.await;" => ");" x2
 //@ loop "while let Some(msg) = receiver.recv().await"
                 invariant
